@@ -110,6 +110,12 @@ def handle (useSpec : Bool) (p : Proc) (line : String) : Proc × String :=
       if useSpec then (p, if Aggregate.specializes x e then "ok" else "refused")
       else (p, if elementAccepted x e then "ok" else "refused")
     | _, _, _, _, _, _ => (p, "bad-op")
+  | ["accepts", t, base] =>                -- is a value of simple type t accepted where `base` is the declared base type?
+    match parseTy t, parseTy base with
+    | some t, some b =>
+      if useSpec then (p, if Aggregate.assignable t b then "ok" else "refused")
+      else (p, if checkType ⟨t, 1⟩ b then "ok" else "refused")
+    | _, _ => (p, "bad-op")
   | ["bi", f] =>                       -- a built-in function of Builtin.py applied to the current container
     match parseBFn f, parseSpecFn f, p.get with
     | some _, some _, .none => (p, "no-aggregate")
